@@ -138,6 +138,8 @@ def worst(*levels):
   """Level of a tuple display / of a variable after a join. 'M' = the generator does not know which of the others."""
   if 'U' in levels:
     return 'U'
+  if 'T' in levels:
+    return 'T'
   if 'M' in levels:
     return 'M'
   if 'A' in levels:
@@ -149,8 +151,12 @@ def op_level(*levels):
   """Level of an operator application: the truthful resolver answers None unless every operand is concrete."""
   if all(l == 'K' for l in levels):
     return 'K'
-  if 'U' in levels or 'A' in levels:
+  if 'U' in levels:
     return 'U'
+  if 'A' in levels or 'T' in levels:
+    # unknown at the fixed point, but known on the passes before the Any-typed binding of the operand has been
+    # merged in: what such a pass records for the target keeps circulating in loops (recorded finding)
+    return 'T'
   return 'M'
 
 
@@ -186,6 +192,16 @@ class Gen(object):
   # ---- expressions: return (src, frozenset of abstract types, level)
   def expr(self, fn, st, want=None, depth=0):
     """An expression all of whose possible types are in `want` (a set of abstract types), if given."""
+    for _ in range(6):
+      src, kinds, level = self._expr(fn, st, want, depth)
+      if level != 'T':
+        return src, kinds, level
+      if self.mode != 'clean':
+        return src, kinds, 'U'
+    t = self.rng.choice(sorted(want, key=repr) if want else ALLK)
+    return lit(self.rng, t), frozenset([t]), 'K'
+
+  def _expr(self, fn, st, want=None, depth=0):
     rng = self.rng
     ok = (lambda k: True) if want is None else (lambda k: all(t in want for t in k))
     for _ in range(12):
@@ -265,7 +281,7 @@ class Gen(object):
           i = rng.choice([0, 1])
           res = frozenset(t[i] for t in st.kinds[v])
           src = '%s[%d]' % (v, i)
-          lv = {'K': 'K', 'M': 'M'}.get(st.level.get(v, 'K'), 'U')
+          lv = {'K': 'K', 'M': 'M', 'A': 'T'}.get(st.level.get(v, 'K'), 'U')
         else:
           vs = [v for v in self.readable(st) if st.kinds[v] == frozenset([list])]
           if not vs:
